@@ -103,6 +103,11 @@ pub fn check(sc: &Scenario, res: &RunResult) -> Vec<Violation> {
                 bad.push(format!("{} {:#x} != {:#x}", n, got, want));
             }
         }
+        // MXCSR is kept a second time as a member of the context itself
+        let mxcsr = u32::from_le_bytes([kt.fp[24], kt.fp[25], kt.fp[26], kt.fp[27]]);
+        if c.mx_csr != mxcsr {
+            bad.push(format!("mx_csr {:#x} != {:#x}", c.mx_csr, mxcsr));
+        }
         if c.float_save[..416] != kt.fp[..416] {
             let p = (0..416).find(|i| c.float_save[*i] != kt.fp[*i]).unwrap();
             bad.push(format!("fp/sse state differs at byte {}", p));
